@@ -7,7 +7,7 @@ claims = json.load(open(os.path.join(V, "tools", "claims.json")))
 m = {"version": 1,
      "setup_cmd": "./check setup",
      "hooks": {"guard": "DISTANCE3D_VERIF",
-               "enable": "no in-source hooks: the harness sets DISTANCE3D_VERIF=1 for its own observers (proxy colliders, wrappers on module attributes); /repo is imported from its working tree",
+               "enable": "no in-source hooks: the harness sets DISTANCE3D_VERIF=1 for its own observers (instance-level counters and taps on collider objects, wrappers on module attributes); /repo is imported from its working tree",
                "baseline_off_cmd": "cd /repo && /venv/bin/python -m pytest -ra -q -p no:cacheprovider --timeout=900 --continue-on-collection-errors",
                "source_commits": [], "add_only": True},
      "engines": [{"name": "tlc", "path": "/opt/veriftools/tla/tla2tools.jar",
